@@ -238,7 +238,7 @@ def reference_value(d, sim, real, flags=None):
     for i in range(D):
         col = np.array([R.apply_filter_ref(None if flt is None else flt[i], sim[e, :, i]) for e in range(E)])
         if k == "msm" and d["calc"] == "default":
-            if any(R.moments_ill_conditioned(c) for c in col) or R.moments_ill_conditioned(real[:, i]):
+            if any(R.moments_ill_conditioned(c, ref_scale=float(np.max(np.abs(sim[e, :, i])))) for e, c in enumerate(col)) or R.moments_ill_conditioned(real[:, i]):
                 return None, "moments 0/0 or root at 0"
         if k == "msm":
             one.data_scale = float(max(np.max(np.abs(sim[:, :, i])), np.max(np.abs(real[:, i])), 1e-300))
